@@ -275,7 +275,7 @@ func (s *Shard) setEpochEventHandler(e Event) {
 			continue
 		}
 
-		if ne.epoch-uint64(unpaidSince) >= maxUnpaidEpochDelay {
+		if ne.epoch >= uint64(unpaidSince) && ne.epoch-uint64(unpaidSince) >= maxUnpaidEpochDelay {
 			l.Info("marking unpaid container as garbage",
 				zap.Stringer("cID", cID), zap.Int64("unpaidSince", unpaidSince))
 
